@@ -16,7 +16,8 @@ Spec == Init /\ [][Next]_vars
 Refines == phase = "done" =>
               /\ (PVerdict(shape) = "ok"  => out = "ok")
               /\ (PVerdict(shape) = "err" => out = "err")
+              /\ (PVerdict(shape) = "refused" <=> out = "refused")
 AllocOK == MPrealloc(shape) <= PreallocCap(FrameOctets(shape))
 BoundaryOK == MConsumedWholeFrame(shape)
-TypeOK == out \in {NA, "ok", "err"} /\ PVerdict(shape) \in {"ok", "err", "either"}
+TypeOK == out \in {NA, "ok", "err", "refused"} /\ PVerdict(shape) \in {"ok", "err", "either", "refused"}
 =============================================================================
